@@ -15,7 +15,8 @@ RULE = ("every model of C13's lattice families (all point sequences over {0..3} 
         "(thorough 5) and over {0,1,2}^2 for n=3, all k ranges, both model kinds) x every query "
         "in {lattice points (copies of training samples), midpoints, a far point} x every batch "
         "position 0..n (the query is preceded by 0..n far-away samples, so positions below and "
-        "beyond the training-set size are both exercised); oracle: distances to ALL training "
+        "beyond the training-set size are both exercised); each model with the natural validation "
+        "criterion and with every k of its range forced through the intercepted criterion; oracle: distances to ALL training "
         "samples, every valid choice of the best_k nearest under distance ties, density from the "
         "stored constant and range, acceptable = (label, cluster) of any chosen neighbour "
         "attaining max min(cost, density); non-trivial = more than one valid neighbour choice, "
@@ -64,6 +65,19 @@ def queries(pts):
 
 
 def programs(shard, seed):
+    """natural validation criterion, plus every k of the range forced through the scripted
+    criterion (the prediction rule must hold for whichever k training selected)"""
+    for p in _programs(shard, seed):
+        yield p
+        lo = p.get("min_k", 1)
+        if p["max_k"] > lo:
+            for k in range(lo, p["max_k"] + 1):
+                q = dict(p)
+                q["force_k"] = k
+                yield q
+
+
+def _programs(shard, seed):
     lk, n, metric, a, b = shard
     pts = E.lattice(lk, seed)
     qs = [list(q) for q in queries(pts)]
@@ -121,7 +135,9 @@ def acceptable(m, q, unsup):
 def run_case(prog, res=None):
     unsup = prog["model"] == "UnsupervisedOPF"
     try:
-        m = K.fit_program(prog)
+        from mc.props import c13
+        with c13.force_k(prog):
+            m = K.fit_program(prog)
         if unsup:
             m.propagate_labels()
     except Horizon:
